@@ -180,6 +180,19 @@ CLAIMED = {
             'Trusted: the proof checker (C01/C02), kernel term equality. Level-0 macros are never expanded by the default checker and '
             'are outside the property (C05/C06 cover them). Macros whose lookup itself fails (int_ineq* have no .limit attribute) are counted, not judged.',
             'DESIGN.md §3 C04'),
+    'C18': ('exploration',
+            'bounded exhaustive enumeration of (clause, premises) tuples for every veriT rule, and of the complete 1-deviation neighbourhood of every step of stored solver-produced proofs, on the real rule evaluators; finite-model and independent-encoding oracles',
+            'Layer A: for every registered veriT rule, every clause of <=2 literals with every premise list of <=1 formulas from a pool '
+            '(plain and under a hypothesis), every clause of <=3 literals and every premise pair from a reduced pool, is given to '
+            'macro.eval. Layer B: every step of the stored solver proofs of the tier (corpus/verit: 151 proofs produced by veriT 2021.06 '
+            'on the repository\'s examples, 76 rules) and each of its near misses (literal dropped / negated / swapped / inner component '
+            'dropped / sides swapped, premise dropped / negated / shortened / swapped, coefficient perturbed, clause size changed). Every '
+            'accepted tuple is judged: premises (with their hypotheses) must entail the returned clause in all finite models with '
+            'carriers of size 1-2, or the independent quantifier-free encoding of premises and negated clause must be unsatisfiable.',
+            'Trusted: mc/holsem.py, mc/smtenc.py (z3 as reference on quantifier-free formulas, model re-evaluated), mc/numeric.py. '
+            'Accepted steps whose validity cannot be decided within the bounds (quantified formulas over large signatures, let/bind/sko '
+            'contexts) are counted as undecided per rule in the evidence, not judged. Steps larger than 600 (thorough 3000) term nodes are skipped.',
+            'DESIGN.md §3 C18'),
 }
 
 PENDING_REASON = 'check not built yet in this round (planned, see DESIGN.md §3/§7); not claimed until its machinery exists'
